@@ -84,15 +84,20 @@ def bcastLt (xs ys : List Nat) : Bool := Tspfam.bcastCmp .lt xs ys
 /-- `check_solution_validity` (True = nothing raised).  `argsort` of a permutation of `0..L-1` is its
 inverse permutation, i.e. `visited_time[v] = index of v`; the first assertion guarantees a permutation
 before `argsort` is looked at.  All sizes derive from the WIDTH `L` OF THE ACTION TENSOR. -/
-def check (i : Inst) (as : List Nat) : Bool :=
-  let acts := if i.force then as else 0 :: as
-  let L := acts.length
+def checkWith (fromInst : Bool) (i : Inst) (as : List Nat) : Bool :=
+  let acts := if i.force == Params.pdpCheckPrependWhenNotForced then as else 0 :: as
+  -- `fromInst`: repaired clause, all sizes from the instance (`num_loc + 1` nodes); a width mismatch raises
+  let L := if fromInst then i.n + 1 else acts.length
   let vt := fun v => acts.idxOf v
   let k := L / 2 + 1
+  (!fromInst || decide (acts.length = L)) &&
   Tspfam.permTest Params.pdpCheckPermCmp L acts &&
   ((acts.drop 1).dropLast).all (fun a => Params.pdpCheckDepotCmp.evalNat a 0) &&
   Tspfam.bcastCmp Params.pdpCheckPrecCmp ((List.range (k - 1)).map (fun t => vt (1 + t)))
     ((List.range (L - k)).map (fun t => vt (k + t)))
+
+/-- the checker as written: the width source is an extracted token (`false` = width of the action tensor) -/
+def check (i : Inst) (as : List Nat) : Bool := checkWith Params.pdpCheckWidthFromInst i as
 
 /-- `get_num_starts`: `(locs.shape[-2] - 1) // 2` (locs include the depot: `n + 1` rows) -/
 def numStarts (i : Inst) : Nat := (i.n + 1 - Params.pdpStartRule.2.1) / Params.pdpStartRule.2.2
